@@ -299,6 +299,9 @@ func runObsCases(gen func(emit func(obsCase)), deadline time.Time) (cases int64,
 	k := 0
 	gen(func(c obsCase) {
 		k++
+		if NShard > 1 && k%NShard != Shard {
+			return
+		}
 		if k%256 == 0 && time.Now().After(deadline) {
 			to.Store(true)
 		}
@@ -316,6 +319,7 @@ func init() {
 		chk := &Check{ID: "C08",
 			Rule: "case enumeration: for each of the 7 built-in event types and 2 custom ones, every observer specification (observed set x With x Without|exclusive) over {P,Q,R1} alone, every ordered pair (and in thorough: triples) of simultaneously registered specifications over a smaller universe, with register / unregister-first / re-register / reverse-order plans and observers that unregister themselves or a neighbour inside the callback; each case runs all 56 (old set -> new set) single-entity transitions over {P,Q,R1} through MapN/Map/ExchangeN/ID-based paths, Set, relation target changes, Copy, entity removal, custom Emit and every batch form; per operation the multiset of (observer, entity) callbacks must equal the documented predicate evaluated per observer; states = cases, non-trivial = cases in which at least one callback ran",
 		}
+		chk.SpecialSharded = true
 		chk.Special = func(tier Tier, rep *engine.Report) error {
 			budget := 150 * time.Second
 			if tier == Thorough {
